@@ -861,10 +861,19 @@ class CallbackShowConvergence(Callback):
         self.ax.set_xlabel('iteration')
         self.ax.set_ylabel('function value')
         self.ax.set_title(title)
+        # The keyword for clipping non-positive values was renamed from
+        # ``nonposx``/``nonposy`` to ``nonpositive`` in matplotlib 3.3 and
+        # the old names were removed in 3.5
         if logx:
-            self.ax.set_xscale("log", nonposx='clip')
+            try:
+                self.ax.set_xscale("log", nonpositive='clip')
+            except (TypeError, ValueError):
+                self.ax.set_xscale("log", nonposx='clip')
         if logy:
-            self.ax.set_yscale("log", nonposy='clip')
+            try:
+                self.ax.set_yscale("log", nonpositive='clip')
+            except (TypeError, ValueError):
+                self.ax.set_yscale("log", nonposy='clip')
 
     def __call__(self, x):
         """Implement ``self(x)``."""
